@@ -97,6 +97,9 @@ pub(crate) enum Token<'a> {
 
     /// Unknown token, not expected by the lexer, e.g. "№"
     Illegal,
+
+    /// End of the input (only used by the parser, the tokenizer simply stops)
+    Eof,
 }
 
 /// Peekable iterator over a char sequence.
@@ -226,8 +229,10 @@ impl<'a> Iterator for Tokenizer<'a> {
             '"' => {
                 self.skip_while(|c, esc| c != '"' || esc);
 
-                // skip closing "
-                self.bump()?;
+                // skip closing " (a string that is never closed is not a token)
+                if self.bump().is_none() {
+                    return Some(Illegal);
+                }
 
                 // this reads the string including escape characters
                 String(self.read_str(start + 1, self.offset() - 1))
